@@ -236,6 +236,7 @@ func runC07(o *hx.Out, r *hx.Rand, thorough bool) {
 		var fin int64
 		var p interface{}
 		var used uint64
+		o.Begin(map[string]interface{}{"side": "client", "body_hex": hex.EncodeToString(body), "abrupt": abrupt})
 		if len(body) <= 16 {
 			used = alloc(func() { msgs, fin, p = runClientBody(body, abrupt) })
 		} else {
@@ -264,6 +265,7 @@ func runC07(o *hx.Out, r *hx.Rand, thorough bool) {
 		if single {
 			sk = "SS"
 		}
+		o.Begin(map[string]interface{}{"side": "server", "single_request": single, "body_hex": hex.EncodeToString(body), "abrupt": abrupt})
 		msgs, fin, p := runServerBody(sk, body, abrupt)
 		desc := map[string]interface{}{"side": "server", "single_request": single, "body_hex": hex.EncodeToString(body), "abrupt": abrupt,
 			"delivered": hexStrs(msgs), "final": fin}
@@ -280,15 +282,15 @@ func runC07(o *hx.Out, r *hx.Rand, thorough bool) {
 
 	// corpus: the witnesses of defects that were repaired (they must stay repaired)
 	hostile := [][]byte{
-		{0x7f, 0xff, 0xff, 0xff},             // 2 GiB prefix (was: client allocates 2 GiB)
-		{0x80, 0x00, 0x00, 0x00},             // MinInt32: -sz overflows
-		{0xff, 0xff, 0xff, 0xff},             // -1: one-byte trailer, missing
-		{0x00, 0x00, 0x00, 0x00},             // empty message then EOF
-		{0x06, 0x40, 0x00, 0x00},             // max_size exactly
-		{0x06, 0x40, 0x00, 0x01},             // max_size + 1
-		{0xf9, 0xc0, 0x00, 0x00},             // -max_size
-		{0xf9, 0xbf, 0xff, 0xff},             // -(max_size+1)
-		{}, {0x00}, {0x00, 0x00, 0x00},       // short prefaces
+		{0x7f, 0xff, 0xff, 0xff},       // 2 GiB prefix (was: client allocates 2 GiB)
+		{0x80, 0x00, 0x00, 0x00},       // MinInt32: -sz overflows
+		{0xff, 0xff, 0xff, 0xff},       // -1: one-byte trailer, missing
+		{0x00, 0x00, 0x00, 0x00},       // empty message then EOF
+		{0x06, 0x40, 0x00, 0x00},       // max_size exactly
+		{0x06, 0x40, 0x00, 0x01},       // max_size + 1
+		{0xf9, 0xc0, 0x00, 0x00},       // -max_size
+		{0xf9, 0xbf, 0xff, 0xff},       // -(max_size+1)
+		{}, {0x00}, {0x00, 0x00, 0x00}, // short prefaces
 		{0x00, 0x00, 0x00, 0x05, 1, 2},       // short payload
 		{0x7f, 0xff, 0xff, 0xff, 1, 2, 3, 4}, // big prefix with a little data
 		{0x80, 0x00, 0x00, 0x00, 9, 9, 9},
